@@ -266,8 +266,11 @@ class ISet(set):
         if self._iter_site == site:          # the length hint taken by list(<set>) right after __iter__
             self._iter_site = None
             return set.__len__(self)
-        if f.f_code.co_filename == self._file and f.f_lineno in self._loglines:
-            return set.__len__(self)         # argument of a logging call: not a step
+        g, depth = f, 0
+        while g is not None and depth < 6:   # also when the len() is taken by a helper called from a logging statement
+            if g.f_code.co_filename == self._file and g.f_lineno in self._loglines:
+                return set.__len__(self)     # argument of a logging call: not a step
+            g, depth = g.f_back, depth + 1
         self._y("len")
         return set.__len__(self._cur())
 
@@ -295,6 +298,11 @@ class ISet(set):
         t._order.remove(x)
 
     def discard(self, x):
+        # `s.discard(x)` is `if x in s: s.remove(x)`: kept at the model's granularity (two primitives); the atomic
+        # discard of CPython is one of the interleavings this allows
+        self._y("contains")
+        if not set.__contains__(self._cur(), x):
+            return
         self._y("remove")
         t = self._cur()
         if set.__contains__(t, x):
